@@ -689,3 +689,18 @@ def rayon_for_each(ev, cx, args):
         return [("continue" if r[0] == "val" else r[0], r[1], r[2], None) for r in _apply(ev, cx, f, (x,), env, path, "f", 1)]
 
     return model_loop(ev, cx, "par_for_each", recv, body, lambda env, L: UNIT)
+
+
+@model("collect", "iter")
+def it_collect(ev, cx, args):
+    """`collect` drains its receiver: the adaptors' closures run once per element; the collection itself stays the
+    opaque result of the call, the elements it receives are recorded as ('yield', site, element)."""
+    recv = args[0]
+
+    def body(x, env, path, L):
+        path.events.append(("yield", cx.site, x))
+        return [("continue", env, path, None)]
+
+    val = ("call", cx.site, (recv,))
+    ev.callees[cx.site] = cx.callee
+    return model_loop(ev, cx, "collect", recv, body, lambda env, L: val)
